@@ -272,6 +272,58 @@ theorem paragraph_is_greedy (cfg : Cfg) (d : Deco) (w : Nat) (hw : 1 ≤ w) (hww
       congr 1
 
 
+/-- **…and under `max_wrap_width(m)` at the effective width `min m w`** -/
+theorem paragraph_is_greedy_maxwrap (cfg : Cfg) (d : Deco) (w m : Nat) (hw : 1 ≤ w) (hm : 1 ≤ m) (hww : cfg.wrapWidth = some m) (hpad : cfg.padBlocks = false)
+    (hov : cfg.overflow = false) (s : List Ch) (hpos : ∀ wd ∈ words s, 0 < lwc wd) :
+    (renderTree cfg d w (.box {} .block [.text {} s])).map (fun ls => ls.map rlineChars) = greedy (min m w) (words s) := by
+  have hg := wrap_eq_greedy_full (min m w) [.text [] [] s] (by omega) (by simpa [partsText, Part.chars] using hpos)
+  simp only [partsText, Part.chars, List.append_nil] at hg
+  rw [← hg]
+  unfold wrapParts
+  simp only [WB.runParts, WB.addPart, andThen]
+  unfold renderTree
+  rw [if_neg (by omega), compile_p_text]
+  have hsb : ({ width := w } : SubR).startBlock = .ok { width := w } := by
+    simp [SubR.startBlock, SubR.flushWrapping, andThen]
+  have hadd : ({ width := w } : SubR).addInlineText cfg s d.annOf =
+      (match ({ width := min m w } : WB).addText .normal [] [] s with
+       | .ok w1 => .ok { width := w, wrapping := some w1 }
+       | .error e => .error e) := by
+    unfold SubR.addInlineText
+    simp only [SubR.wsMode, List.getLast?_nil, Option.getD_none, WS.preserve, Bool.not_false, Bool.true_and, Bool.false_and,
+      Bool.false_eq_true, if_false, andThen, iterN, SubR.getWrapping, hww, hpad, hov, List.nil_append, Nat.lt_irrefl]
+    cases ({ width := min m w } : WB).addText .normal [] [] s <;> rfl
+  simp only [runOps, runOp, stepSimple, RS.onCur, andThen, hsb, hadd]
+  cases h1 : ({ width := min m w } : WB).addText .normal [] [] s with
+  | error e => rfl
+  | ok w1 =>
+    simp only [footTexts, List.zipIdx_nil, List.map_nil, ite_self, List.isEmpty_nil, if_true]
+    obtain ⟨m1, _⟩ := addText_marks _ w1 _ _ _ _ (fun _ => Or.inl rfl) h1
+    have hwm : marks w1.word = [] := by
+      have : w1.marks = [] := by rw [m1]; rfl
+      simp only [WB.marks, List.append_eq_nil_iff] at this
+      exact this.2
+    have hb : (if w1.word.noContent = true then { w1 with word := [] } else w1) = w1 := by
+      split
+      · rename_i hn
+        have := noContent_no_marks w1.word hn hwm
+        cases w1; simp_all
+      · rfl
+    have hfr : (if w1.word.noContent = true then w1.word else []) = [] := by
+      split
+      · rename_i hn; exact noContent_no_marks w1.word hn hwm
+      · rfl
+    unfold SubR.intoLines SubR.flushWrapping
+    simp only [hb, hfr, andThen]
+    cases h2 : w1.finish with
+    | error e => rfl
+    | ok ls =>
+      have := (addLines_plain (ls.map RLine.text) ({ width := w, atBlockEnd := true } : SubR) rfl).1
+      simp only [List.nil_append] at this
+      simp only [this, Except.map, List.map_map, linesText]
+      congr 1
+
+
 /-- the DOM html5ever builds for `<p>text</p>` -/
 def pDoc (s : List Ch) : Node :=
   .doc [.elem "html" true [] [.elem "head" true [] [], .elem "body" true [] [.elem "p" true [] [.text s]]]]
